@@ -174,7 +174,7 @@ func c12KeyVerbatim(r *core.Report) {
 	info := p.Pkg("openapi3").TypesInfo
 	r.RunRule("C12.keyverbatim", "the tokens of an error's JSON pointer are the keys of the value as they stand in it: in markSchemaErrorKey what is appended to reversePath is the key parameter itself — JSONPointer() returns the tokens as a list, so a token escaped for printing (`/` as `~1`) is not a key of the value and the quoted value cannot be found at the pointer", 1, func() {
 		fd := p.DeclOf("openapi3", "markSchemaErrorKey")
-		key := core.ParamObj(info, fd, "key")
+		key := paramAt(info, fd, 1) // (err, key)
 		n := 0
 		ast.Inspect(fd.Body, func(nd ast.Node) bool {
 			c, ok := nd.(*ast.CallExpr)
